@@ -239,7 +239,7 @@ impl<'a, I: HInput<'a>, E: HErr<'a, I>> Builder<'a, I, E> {
                         .map(|(a, b, c, d, e)| Val::List(vec![a, b, c, d, e]))),
                     6 => bx(group(tuple_of!(ps; 0 1 2 3 4 5))
                         .map(|(a, b, c, d, e, f)| Val::List(vec![a, b, c, d, e, f]))),
-                    _ => return unsupported("Group: tuple form is built for 1..=6 elements"),
+                    _ => return unsupported("Group: the tuple form is built for 1..=6 elements"),
                 }
             }
 
